@@ -100,18 +100,39 @@ class Dispatcher(InstructionGenerator):
                 filter_function=_valid_request,
             )
 
+            def _has_access(vehicle: Vehicle, request: Request) -> bool:
+                return request.membership.grant_access_to_membership(vehicle.membership)
+
+            def _cost(vehicle: Vehicle, request: Request) -> float:
+                # a vehicle is never paired with a request that does not grant it access
+                if not _has_access(vehicle, request):
+                    return float("inf")
+                return assignment_ops.h3_distance_cost(vehicle, request)
+
+            # a vehicle that cannot serve any of these requests (e.g. a vehicle of no fleet when
+            # the requests of a fleet are matched) takes no part in the assignment
+            available_vehicles = tuple(
+                v for v in available_vehicles if any(_has_access(v, r) for r in unassigned_requests)
+            )
+
             # select assignment of vehicles to requests
             solution = assignment_ops.find_assignment(
                 available_vehicles,
                 unassigned_requests,
-                assignment_ops.h3_distance_cost,
+                _cost,
             )
             instructions = ft.reduce(
                 lambda acc, pair: (
                     *acc,
                     DispatchTripInstruction(pair[0], pair[1]),
                 ),
-                solution.solution,
+                (
+                    pair
+                    for pair in solution.solution
+                    if _has_access(
+                        simulation_state.vehicles[pair[0]], simulation_state.requests[pair[1]]
+                    )
+                ),
                 inst_acc,
             )
 
